@@ -187,20 +187,23 @@ Proof. unfold tonl_keep, in_testonly_context. rewrite rl_kind, rl_attrs, func_re
 Lemma tonl_type_cand_rl t pos : tonl_type_cand fs' t (phi pos) = map rc (tonl_type_cand fs t pos).
 Proof. unfold tonl_type_cand. destruct (type_info t) as [[p tn]|]; [|reflexivity]. rewrite Htt. destruct (tonl_type fs p tn); reflexivity. Qed.
 
+Lemma method_recv_type_rl n : method_recv_type (rl n) = method_recv_type n.
+Proof. unfold method_recv_type. rewrite rl_attrs. reflexivity. Qed.
+
 Lemma tonl_cands_rl n : tonl_cands fs' (rl n) = map rc (tonl_cands fs n).
 Proof.
   unfold tonl_cands. rewrite rl_kind, rl_attrs, rl_children, rl_pos. destruct (n_kind n); try reflexivity; try apply tonl_type_cand_rl.
   - destruct (a_flag (n_attrs n)); [apply tonl_type_cand_rl|reflexivity].
-  - destruct (n_children n) as [|f r]; [reflexivity|]. cbn [map]. rewrite rl_kind, rl_attrs, rl_children. destruct (n_kind f); try reflexivity.
+  - destruct (n_children n) as [|f r]; [reflexivity|]. cbn [map]. rewrite method_recv_type_rl, rl_kind, rl_attrs, rl_children. destruct (n_kind f); try reflexivity.
     + destruct (n_children f) as [|x r']; cbn [map].
-      * destruct (type_info (a_ty (n_attrs f))) as [[p tn]|]; [|reflexivity]. rewrite Htm. destruct (tonl_method fs p (a_name (n_attrs f)) tn); reflexivity.
+      * destruct (type_info (method_recv_type f)) as [[p tn]|] eqn:Em; [|reflexivity]. rewrite Htm. destruct (tonl_method fs p (a_name (n_attrs f)) tn); reflexivity.
       * rewrite rl_kind, rl_attrs.
         destruct (match n_kind x, a_obj (n_attrs x) with
                   | KIdent, Some o => match o_kind o with OPkgName => Some (o_imported o) | _ => None end
                   | _, _ => None
                   end) as [p|].
         -- rewrite Htf. destruct (tonl_func fs p (a_name (n_attrs f))); reflexivity.
-        -- destruct (type_info (a_ty (n_attrs f))) as [[p tn]|]; [|reflexivity]. rewrite Htm. destruct (tonl_method fs p (a_name (n_attrs f)) tn); reflexivity.
+        -- destruct (type_info (method_recv_type f)) as [[p tn]|]; [|reflexivity]. rewrite Htm. destruct (tonl_method fs p (a_name (n_attrs f)) tn); reflexivity.
     + destruct (a_obj (n_attrs f)) as [o|]; [|reflexivity]. destruct (o_kind o); try reflexivity. destruct (o_pkg o) as [p|]; [|reflexivity].
       rewrite Htf. destruct (negb (o_is_method o) && tonl_func fs p (o_name o)); reflexivity.
 Qed.
